@@ -22,13 +22,21 @@ def gen_tree(rng, base):
     # the application itself may live under a directory that looks like part of build/packages
     app = Pkg("app", base + rng.choice(["/app", "/app", "/app", "/packages/app", "/mono/build/app"]), "root")
     pkgs = [app]
+    # package names that begin like one another (gleam_http / gleam_httpc, app / app_core): directories of the same depth
+    # whose paths are textual beginnings of each other
+    reg_names = ["kit", "kitc", "kit_core", "web"] if rng.random() < 0.6 else ["dep0", "dep1", "dep2", "dep3"]
+    path_names = ["app_core", "appx", "lib", "libs"] if rng.random() < 0.6 else ["lib0", "lib1", "lib2", "lib3"]
     for i in range(rng.randrange(0, 4)):
         if rng.random() < 0.5:
-            p = Pkg(f"dep{i}", f"{app.root}/build/packages/dep{i}", "registry")
+            nm = reg_names[i]
+            p = Pkg(nm, f"{app.root}/build/packages/{nm}", "registry")
         else:
-            # a path dependency may live anywhere, also under a directory that merely looks like part of build/packages
-            where = rng.choice([f"{base}/lib{i}", f"{base}/lib{i}", f"{base}/packages/lib{i}", f"{base}/build/lib{i}", f"{base}/vendor/packages/lib{i}"])
-            p = Pkg(f"lib{i}", where, "path")
+            # a path dependency may live anywhere, also under a directory that merely looks like part of build/packages;
+            # next to the application it may be called like the application with something appended
+            nm = path_names[i]
+            sib = os.path.dirname(app.root)
+            where = rng.choice([f"{base}/{nm}", f"{sib}/{nm}", f"{base}/packages/{nm}", f"{base}/build/{nm}", f"{base}/vendor/packages/{nm}"])
+            p = Pkg(nm, where, "path")
         pkgs.append(p)
     # dependency edges: app depends on a subset; some dependencies depend on others (transitive)
     for p in pkgs[1:]:
